@@ -17,10 +17,14 @@ LEVEL_KINDS = [
     "formals_arg", "formals_default", "lam_arg",
     "lamf_unapplied", "lam_unapplied", "lam_other", "assert", "paren",
     "rec_a", "set_a", "rec_none",
+    # forced collisions: a chain through an outer binding whose next link is shadowed further in; layers with identical text;
+    # an applied function whose argument is an identifier bound by a let around the call
+    "let_z", "let_a_is_z", "let_same", "formals_idarg",
 ]
-CORE_KINDS = {"let_a", "let_alias", "let_none", "let_selfcycle", "let_2cycle", "with_a", "with_none", "withid_a", "formals_arg", "formals_default", "rec_a", "set_a", "rec_none"}
+CORE_KINDS = {"let_z", "let_a_is_z", "let_same", "formals_idarg", "let_a", "let_alias", "let_none", "let_selfcycle", "let_2cycle", "with_a", "with_none", "withid_a", "formals_arg", "formals_default", "rec_a", "set_a", "rec_none"}
 PASS_THROUGH = {"lam_other", "assert", "paren"}
-INNER_SHAPES = ["plain", "plain_a", "rec_a", "nested_plain_a", "nested_rec_a", "inherit_a", "rec_inherit_a", "inherit_from", "chain_in_rec"]
+INNER_SHAPES = ["plain", "plain_a", "rec_a", "nested_plain_a", "nested_rec_a", "inherit_a", "rec_inherit_a", "inherit_from", "chain_in_rec", "rec_inherit_from_shadowed"]
+SAME = 7  # the literal used by every `let_same` level
 
 
 @dataclasses.dataclass
@@ -60,6 +64,20 @@ def build(levels: tuple, inner: str) -> Program:
         elif k == "let_none":
             open_parts.append(f"let q{n} = {n}; in ")
             frames.append(Frame("lex", {f"q{n}": ("lit", n)}))
+        elif k == "let_z":
+            open_parts.append(f"let z = {n}; in ")
+            frames.append(Frame("lex", {"z": ("lit", n)}))
+        elif k == "let_a_is_z":
+            open_parts.append("let a = z; in ")
+            frames.append(Frame("lex", {"a": ("ref", "z", "self")}))
+        elif k == "let_same":
+            open_parts.append(f"let a = {SAME}; in ")
+            frames.append(Frame("lex", {"a": ("lit", SAME)}))
+        elif k == "formals_idarg":
+            open_parts.append(f"let g{n} = {{ a = {n}; }}; in ({{ a, ... }}: ")
+            close_parts.append(f") g{n}")
+            frames.append(Frame("lex", {f"g{n}": ("set", n)}))
+            frames.append(Frame("lex", {"a": ("lit", n)}))
         elif k == "let_selfcycle":
             open_parts.append("let a = a; in ")
             frames.append(Frame("lex", {"a": ("ref", "a", "self")}))
@@ -153,6 +171,12 @@ def build(levels: tuple, inner: str) -> Program:
         frames.append(Frame("lex", {f"s{n}": ("set", n)}))
         frames.append(Frame("with", {}))  # placeholder, unused
         return Program(levels, inner, "".join(open_parts) + body + "".join(reversed(close_parts)), keys, frames, ref_name="<from>", ref_from=str(n))
+    elif inner == "rec_inherit_from_shadowed":
+        m = n + 500
+        body = f"let s = {{ a = {m}; }}; in rec {{ s = {{ a = {n}; }}; inherit (s) a; x = a; }}"
+        keys.append("x")
+        frames.append(Frame("lex", {"s": ("set", m)}))
+        frames.append(Frame("lex", {"s": ("set", n), "a": ("from", "s"), "x": ("ref", "a", "self")}))
     elif inner == "chain_in_rec":
         body = f"rec {{ b = a; x = b; a = {n}; }}"
         keys.append("x")
@@ -167,7 +191,7 @@ def build(levels: tuple, inner: str) -> Program:
 def resolve(p: Program):
     """-> ('bound', literal) | ('unbound',) | ('cycle',) | ('novalue',)"""
     if p.ref_name == "<from>":
-        return ("bound", int(p.ref_from))
+        return ("bound", int(p.ref_from), len(p.frames) - 1)
     frames = p.frames
     start = len(frames) - 1
     if p.ref_from == "outer":
@@ -175,7 +199,7 @@ def resolve(p: Program):
     return _lookup(frames, p.ref_name, start, set())
 
 
-def _lookup(frames, name, start, visiting):
+def _lookup(frames, name, start, visiting, in_chain=False):
     for i in range(start, -1, -1):
         f = frames[i]
         if f.kind == "lex" and name in f.binds:
@@ -184,22 +208,30 @@ def _lookup(frames, name, start, visiting):
         f = frames[i]
         if f.kind == "with" and name in f.binds:
             return _eval(frames, f.binds[name], i - 1, name, visiting)
-    return ("unbound",)
+    return ("unbound-chain",) if in_chain else ("unbound",)
 
 
 def _eval(frames, rhs, i, name, visiting):
     if rhs[0] == "lit":
-        return ("bound", rhs[1])
+        return ("bound", rhs[1], i)
     if rhs[0] == "novalue":
         return ("novalue",)
     if rhs[0] == "set":
         return ("set", rhs[1])
+    if rhs[0] == "from":
+        src = _lookup(frames, rhs[1], i, visiting | {(i, name)})
+        return ("bound", src[1], i) if src[0] == "set" else src
     key = (i, name)
     if key in visiting:
         return ("cycle",)
     visiting = visiting | {key}
     scope = i if rhs[2] == "self" else i - 1
-    return _lookup(frames, rhs[1], scope, visiting)
+    return _lookup(frames, rhs[1], scope, visiting, True)
+
+
+def same_ordinal(p: Program, frame_index: int) -> int:
+    """Which occurrence (0-based, text order) of the SAME literal the frame at frame_index holds."""
+    return sum(1 for j, f in enumerate(p.frames[: frame_index + 1]) if f.binds.get("a") == ("lit", SAME)) - 1
 
 
 def is_core(p: Program) -> bool:
